@@ -307,6 +307,16 @@ async fn run_fsreal(case: Value, base: &str) -> Value {
 		if at > el {
 			tokio::time::sleep(at - el).await;
 		}
+		if op["op"] == "repath" {
+			// the watched set changes at run time
+			let set: Vec<watchexec::WatchedPath> = op["entries"].as_array().unwrap().iter().map(|e| {
+				let p = dir.join(e["path"].as_str().unwrap());
+				if e["recursive"].as_bool().unwrap_or(true) { watchexec::WatchedPath::recursive(p) } else { watchexec::WatchedPath::non_recursive(p) }
+			}).collect();
+			wx.config.pathset(set);
+			log.lock().unwrap().push(json!({"k": "op", "t": ms(t0), "op": "repath", "ok": true}));
+			continue;
+		}
 		let p = dir.join(op["path"].as_str().unwrap());
 		let r = match op["op"].as_str().unwrap() {
 			"mkdir" => std::fs::create_dir_all(&p).map(|_| ()),
